@@ -28,14 +28,14 @@ inductive Val where
 inductive Err where
   | typeError | undefinedError | zeroDiv | valueError | keyError | overflow
   | oom                       -- outside the model's stated domain (never compared)
-  deriving Repr, BEq, DecidableEq, Inhabited
+  deriving Repr, DecidableEq, Inhabited
 
 inductive BinOp where | add | sub | mul | div | floordiv | mod | pow
-  deriving Repr, BEq, DecidableEq, Inhabited
+  deriving Repr, DecidableEq, Inhabited
 inductive UnOp where | neg | pos
-  deriving Repr, BEq, DecidableEq, Inhabited
+  deriving Repr, DecidableEq, Inhabited
 inductive CmpOp where | eq | ne | lt | le | gt | ge | in_ | notin
-  deriving Repr, BEq, DecidableEq, Inhabited
+  deriving Repr, DecidableEq, Inhabited
 
 /-- one application of an intercepted operator, as seen by `call_binop` / `call_unop` -/
 inductive Ev where
@@ -53,6 +53,7 @@ instance : Monad M where
     | (l, .ok a) => let r := f a; (l ++ r.1, r.2)
     | (l, .error e) => (l, .error e)
 
+def M.mk {α} (l : List Ev) (r : Except Err α) : M α := (l, r)
 def M.ok {α} (a : α) : M α := ([], .ok a)
 def M.fail {α} (e : Err) : M α := ([], .error e)
 def M.lift {α} (x : Except Err α) : M α := ([], x)
@@ -726,13 +727,13 @@ def joinVals (markup : Bool) (vs : List Val) : Val :=
 
 /-- binary operator application as generated code performs it: through the sandbox hook when intercepted -/
 def applyBin (c : CCfg) (ctx : Ctx) (op : BinOp) (a b : Val) : M Val :=
-  if c.sandboxed && c.icBin.contains op then do
+  if c.sandboxed && decide (op ∈ c.icBin) then do
     M.emit (.bin op a b)
     M.lift (ctx.hookBin op a b)
   else M.lift (pyBin op a b)
 
 def applyUn (c : CCfg) (ctx : Ctx) (op : UnOp) (a : Val) : M Val :=
-  if c.sandboxed && c.icUn.contains op then do
+  if c.sandboxed && decide (op ∈ c.icUn) then do
     M.emit (.un op a)
     M.lift (ctx.hookUn op a)
   else M.lift (pyUn op a)
@@ -889,7 +890,7 @@ def asConst (g : Guards) (t : Tables) (c : CCfg) : Expr → Option Val
     | Option.none => Option.none
     | some v => asConstCmp g t c v ops
   | .bin op a b =>
-    if g.binIntercept && c.sandboxed && c.icBin.contains op then Option.none else
+    if g.binIntercept && c.sandboxed && decide (op ∈ c.icBin) then Option.none else
     match asConst g t c a, asConst g t c b with
     | some av, some bv => okOpt (pyBin op av bv)
     | _, _ => Option.none
@@ -899,7 +900,7 @@ def asConst (g : Guards) (t : Tables) (c : CCfg) : Expr → Option Val
     | Option.none => Option.none
     | some vs => some (joinVals (g.concatAutoescape && c.autoescape) vs)
   | .un op a =>
-    if g.unIntercept && c.sandboxed && c.icUn.contains op then Option.none else
+    if g.unIntercept && c.sandboxed && decide (op ∈ c.icUn) then Option.none else
     match asConst g t c a with
     | some av => okOpt (pyUn op av)
     | Option.none => Option.none
